@@ -406,7 +406,7 @@ fn emit(h: &mut Hist, s: &mut Sys, ev: String, real_out: &[Vec<Message>], closed
     }
 }
 
-fn note_sent(s: &mut Sys, c: usize, r: &Req) {
+fn note_sent(h: &mut Hist, s: &mut Sys, c: usize, r: &Req) {
     match r {
         Req::Reg(ts) => {
             if s.ci[c].ver >= 17 {
@@ -429,6 +429,9 @@ fn note_sent(s: &mut Sys, c: usize, r: &Req) {
                 if r.is_none() {
                     let (gone, keep): (Vec<_>, Vec<_>) = s.ci[c].open.iter().cloned().partition(|(_, ot)| *ot == t);
                     s.ci[c].open = keep;
+                    if !gone.is_empty() {
+                        bump(h, "exempt:own-query-dropped-by-own-Unavailable");
+                    }
                     s.ci[c].forgotten.extend(gone);
                     s.ci[c].registered.remove(&t);
                 }
@@ -502,7 +505,7 @@ fn exec_op(h: &mut Hist, s: &mut Sys, op: Op) -> Result<(), String> {
             // (no gauge query here: polling the broker would let it dequeue the request)
             writeln!(h.out, "EV DROP {}\nSTATS -\nEXIT 0\nEND", c).unwrap();
             h.steps += 1;
-            note_sent(s, c, &req);
+            note_sent(h, s, c, &req);
             s.w.settle();
             let (o, cl) = s.drain_all();
             emit(h, s, format!("MSG {} {}", c, text), &o, &cl, true);
@@ -552,7 +555,7 @@ fn exec_op(h: &mut Hist, s: &mut Sys, op: Op) -> Result<(), String> {
             if !send(s.w.clients[c].as_mut().unwrap(), msg) {
                 return Err(format!("could not send on live client {c}"));
             }
-            note_sent(s, c, &req);
+            note_sent(h, s, c, &req);
             s.w.settle();
             let (o, cl) = s.drain_all();
             emit(h, s, format!("MSG {} {}", c, text), &o, &cl, true);
